@@ -52,6 +52,9 @@ pub struct Case {
     pub seed: u64,
     /// per node id: simulated latency of its storage calls in ms
     pub storage_latency_ms: BTreeMap<u8, u64>,
+    /// 0 = one store extension per node; 1 / 2 = every node also hosts a second store extension of another storage
+    /// type, added after / before the main one (seeded change `C06l`)
+    pub second_store: u8,
 }
 
 pub struct C06;
@@ -116,7 +119,8 @@ impl Prop for C06 {
                 storage_latency_ms.insert(*id, ms);
             }
         }
-        Case { nodes, issuer, level, kind, keys, behaviour, earlier, preload, seed, storage_latency_ms }
+        let second_store = *src.pick(&[0u8, 0, 0, 0, 1, 2]);
+        Case { nodes, issuer, level, kind, keys, behaviour, earlier, preload, seed, storage_latency_ms, second_store }
     }
 
     fn run(&self, case: &Case) -> Outcome {
@@ -135,6 +139,7 @@ impl Prop for C06 {
             "preload": case.preload,
             "seed": case.seed,
             "storage_latency_ms": case.storage_latency_ms,
+            "second_store_extension": match case.second_store { 0 => "none", 1 => "added after the main one", _ => "added before the main one" },
         })
     }
 
@@ -146,7 +151,8 @@ impl Prop for C06 {
          distinct other nodes (per data centre for Local/EachQuorum) hold the mutation or a newer stamp for each id; \
          ConsistencyFailure => reported responses == acknowledgements that came back, required == replicas asked, \
          local write in place, and after healing + 3 repair intervals every node holds it; NotEnoughNodes => fewer \
-         than the required other nodes exist; non-trivial = level != None and (>=1 deviating replica or >=2 DCs)"
+         than the required other nodes exist; in half of the cases every node hosts a second store extension (another storage type) \
+         and a write at level All through it must be readable from that store, and only from that store, on every node; non-trivial = level != None and (>=1 deviating replica or >=2 DCs)"
     }
 }
 
@@ -163,8 +169,37 @@ pub fn holds(node: &NodeH, ks: &str, id: u64, t: Stamp) -> bool {
     node.store.metadata(ks).get(&id).map(|(ts, _)| Stamp::of(*ts) >= t).unwrap_or(false)
 }
 
+/// Two stores on one node are two replicated stores: nothing written through one may show up in the other.
+fn check_stores_separate(nodes: &[NodeH], when: &str) -> Result<(), Fail> {
+    for n in nodes {
+        let Some(second) = &n.second else { continue };
+        let stray: Vec<u64> = n.store.metadata(SIDE_KS).keys().copied().collect();
+        ensure!(
+            stray.is_empty(),
+            "write-landed-in-the-wrong-store",
+            "{when}: node {} holds ids {:?} of keyspace {SIDE_KS:?} in its MAIN store, they were written through the second store",
+            n.id,
+            stray
+        );
+        for ks in [ks_name(0), ks_name(1)] {
+            let stray: Vec<u64> = second.store.metadata(&ks).keys().copied().collect();
+            ensure!(
+                stray.is_empty(),
+                "write-landed-in-the-wrong-store",
+                "{when}: node {} holds ids {:?} of keyspace {ks:?} in its SECOND store, they were written through the main store",
+                n.id,
+                stray
+            );
+        }
+    }
+    Ok(())
+}
+
+const SIDE_KS: &str = "side";
+
 async fn run(case: &Case, net: e3::Net) -> Outcome {
     let layout = Layout { nodes: case.nodes.clone(), repair_interval: Duration::from_secs(5), storage_latency_ms: case.storage_latency_ms.clone() };
+    e3::set_second_store(case.second_store);
     let nodes = e3::start_cluster(&layout).await;
     let t0 = tokio::time::Instant::now();
     let ks = ks_name(0);
@@ -176,6 +211,21 @@ async fn run(case: &Case, net: e3::Net) -> Outcome {
             let _ = nodes[0].handle.put(&ks, k, vec![9u8; 4], Consistency::None).await;
         }
         e3::advance(8_000).await;
+    }
+    if let Some(second) = &issuer.second {
+        // nothing deviates yet: a write at level All through the second store reaches that store on every node
+        let r = second.handle.put(SIDE_KS, 4242, vec![3u8; 3], Consistency::All).await;
+        ensure!(r.is_ok(), "unexpected-error", "put at level All through the second store of a healthy cluster failed: {:?}", r.map_err(|e| e.to_string()));
+        for n in &nodes {
+            let held = n.second.as_ref().map(|s| s.store.metadata(SIDE_KS).contains_key(&4242)).unwrap_or(false);
+            ensure!(
+                held,
+                "ok-but-too-few-replicas",
+                "put at level All through the second store returned Ok but the second store of node {} does not hold the document",
+                n.id
+            );
+        }
+        check_stores_separate(&nodes, "after a write through the second store")?;
     }
     for l in &case.earlier {
         let _ = issuer.node.select_nodes(LEVELS[*l]).await;
@@ -343,6 +393,10 @@ async fn run(case: &Case, net: e3::Net) -> Outcome {
         }
     }
     check_converged(&nodes, 1, "after the consistency-level operation healed")?;
+    check_stores_separate(&nodes, "at the end")?;
+    if case.second_store != 0 {
+        labels.push("two_store_extensions");
+    }
 
     let dcs: BTreeSet<&String> = case.nodes.iter().map(|(_, d)| d).collect();
     if dcs.len() >= 2 {
